@@ -177,6 +177,28 @@ def api_variants(R, B, rng):
             case(f'external-address-from-{fname}', lambda: B.Builder().store_address(mk()).store_bit(1), want + '1',
                  lambda s: [('preload_address', (lambda a: (a.external_address, a.len))(s.preload_address()), (val, ln)),
                             ('load_address', (lambda a: (a.external_address, a.len))(s.load_address()), (val, ln)), ('then bit', s.load_bit(), 1)], {'value': str(val), 'len': ln})
+    # a byte string / hex text without an explicit length has the length of its bytes: leading zero bits belong to the value (b'\x00\x01' is not b'\x01')
+    for raw in (b'\x00\xff', b'\x7f', b'\x00', b'\x00\x00\x01', b'\xff', b'\x80\x00', bytes(range(32)), bytes(8), rng.randbytes(5), b'\x01' + bytes(20)):
+        ln = 8 * len(raw)
+        val = int.from_bytes(raw, 'big')
+        want = '01' + f'{ln:09b}' + bits_of_bytes(raw)
+        for fname, mk in (('bytes-own-length', lambda: ExternalAddress(raw)), ('hex-str-own-length', lambda: ExternalAddress(raw.hex()))):
+            case(f'external-address-from-{fname}', lambda: B.Builder().store_address(mk()).store_bit(1), want + '1',
+                 lambda s: [('preload_address', (lambda a: (a.external_address, a.len))(s.preload_address()), (val, ln)),
+                            ('load_address', (lambda a: (a.external_address, a.len))(s.load_address()), (val, ln)), ('then bit', s.load_bit(), 1)], {'bytes': raw.hex()})
+    # the empty external address (the signature admits None, to_cell writes addr_none for it)
+    case('external-address-from-None', lambda: B.Builder().store_address(ExternalAddress(None)).store_bit(1), '00' + '1',
+         lambda s: [('preload_address', s.preload_address(), None), ('load_address', s.load_address(), None), ('then bit', s.load_bit(), 1)], {})
+    # a copy of an anycast address is that address: the rewrite prefix goes with it
+    for depth, pfx in ((1, 1), (5, 0b10110), (30, (1 << 30) - 2)):
+        hp = rng.randbytes(32)
+        a = Address((0, hp))
+        a.set_anycast(depth, pfx)
+        want = '101' + f'{depth:05b}' + f'{pfx:0{depth}b}' + '00000000' + bits_of_bytes(hp)
+        for fname, mk in (('Address', lambda: a), ('Address-copy', lambda: Address(a)), ('Address-copy-of-loaded', lambda: Address(B.Builder().store_address(a).end_cell().begin_parse().load_address()))):
+            case(f'store_address-anycast-{fname}', lambda: B.Builder().store_address(mk()), want,
+                 lambda s: [('load_address', (lambda x: (x.wc, x.hash_part, x.anycast.depth, x.anycast.prefix if hasattr(x.anycast, 'prefix') else x.anycast.rewrite_pfx))(s.load_address()), (0, hp, depth, pfx))],
+                 {'depth': depth})
     # Address from an Address, from its raw and friendly text, stored through store_address(str)
     for wc in (0, -1, 127, -128):
         hp = rng.randbytes(32)
